@@ -167,7 +167,7 @@ func cmdCheck(args []string) int {
 					gv = append(gv, in.Len)
 				}
 			}
-			script := Script(asserts, gv, r.Opaque)
+			script := "; " + o.Name + "\n" + Script(asserts, gv, r.Opaque)
 			if len(script) > 8<<20 {
 				o.Status = "unknown"
 				o.Result = &SolveResult{Verdict: "unknown", Output: "VC larger than 8 MB"}
@@ -368,6 +368,8 @@ func report(p *Loaded, verif, prop, tier string, seed int, pc *PropConfig, resul
 	usedC := map[string]bool{}
 	notes := map[string]bool{}
 	replayDir := filepath.Join(verif, "replays")
+	replays := 0
+	noReplay := os.Getenv("GOVC_NO_REPLAY") != ""
 	for _, r := range results {
 		fuc = append(fuc, r.Target)
 		for _, a := range r.Assumed {
@@ -437,9 +439,18 @@ func report(p *Loaded, verif, prop, tier string, seed int, pc *PropConfig, resul
 						}
 					}
 				}
-				rp := writeReplay(replayDir, prop, n, bad, owner, "")
+				var rdetail map[string]interface{}
+				rconf := false
+				rraw := ""
+				if owner != nil && !noReplay && replays < 4 {
+					if h := harnessFn(p, owner); h != nil {
+						replays++
+						rconf, rdetail, rraw = replayObligation(p, bad, owner, h, filepath.Join(scratch, "smt"), scratch, seed)
+					}
+				}
+				rp := writeReplayFull(replayDir, prop, n, bad, owner, "", rconf, rdetail, rraw)
 				suffix := ""
-				if bad.Status != "failed" || !replayConfirmed(rp) {
+				if !rconf {
 					suffix = " no-failing-input-found"
 				}
 				violLines = append(violLines, fmt.Sprintf("VIOLATION property=%s replay=%s%s", prop, rp, suffix))
@@ -602,5 +613,35 @@ func writeReplay(dir, prop, name string, o *Obligation, r *TargetResult, msg str
 	}
 	data, _ := json.MarshalIndent(rec, "", " ")
 	os.WriteFile(fn, data, 0o644)
+	return fn
+}
+
+func harnessFn(p *Loaded, r *TargetResult) *ssa.Function {
+	if h, ok := p.harnessOf[r.Target]; ok {
+		return h
+	}
+	if l, ok := p.lemmas[r.Target]; ok {
+		return l.Fn
+	}
+	return nil
+}
+
+func writeReplayFull(dir, prop, name string, o *Obligation, r *TargetResult, msg string, confirmed bool, detail map[string]interface{}, raw string) string {
+	fn := writeReplay(dir, prop, name, o, r, msg)
+	data, err := os.ReadFile(fn)
+	if err != nil {
+		return fn
+	}
+	var rec map[string]interface{}
+	json.Unmarshal(data, &rec)
+	rec["confirmed"] = confirmed
+	if detail != nil {
+		rec["native_replay"] = detail
+	}
+	if raw != "" && !confirmed {
+		rec["native_replay_output"] = raw
+	}
+	out, _ := json.MarshalIndent(rec, "", " ")
+	os.WriteFile(fn, out, 0o644)
 	return fn
 }
